@@ -277,8 +277,18 @@ func VH_C09_validate() {
 		recs = append(recs, rc)
 		i.versions = append(i.versions, v)
 	}
-	// one version may have a symbolic name/login
+	// one version may have a symbolic name/login (TEXT = 0: clocks only)
 	sl := rt.Param("SL", 2)
+	if rt.Param("TEXT", 1) == 0 {
+		err := i.Validate()
+		rt.Assert((err == nil) == wantClocks, "validate-iff-documented-rules")
+		if err == nil {
+			rt.Cover("valid")
+		} else {
+			rt.Cover("invalid")
+		}
+		return
+	}
 	w := rt.Choose(nv)
 	name := rt.NondetString(sl)
 	login := rt.NondetString(1)
